@@ -135,3 +135,13 @@ package flags
 //@ witness[C14] isNil(result1) && typeIs(result0, *rule.SyscallRule) ==> ptr(rule.SyscallRule, payload(result0)).Syscalls == ruleFlagSet.Syscalls && ptr(rule.SyscallRule, payload(result0)).Keys == ruleFlagSet.Key
 //@ witness[C14] isNil(result1) && typeIs(result0, *rule.SyscallRule) && ruleFlagSet.Type == rule.AppendSyscallRuleType ==> ptr(rule.SyscallRule, payload(result0)).List == ruleFlagSet.Append.List && ptr(rule.SyscallRule, payload(result0)).Action == ruleFlagSet.Append.Action
 //@ witness[C14] isNil(result1) && typeIs(result0, *rule.SyscallRule) && ruleFlagSet.Type == rule.PrependSyscallRuleType ==> ptr(rule.SyscallRule, payload(result0)).List == ruleFlagSet.Prepend.List && ptr(rule.SyscallRule, payload(result0)).Action == ruleFlagSet.Prepend.Action
+//
+// Exclusivity in terms of the flags given on the line (checked in a second run of
+// Parse with validate inlined, where flag.FlagSet.Visit is modelled precisely):
+// exactly one of the three kinds of flags was given.
+//@ witness[C14v] isNil(result1) ==> (flagIsSet("D") && !(flagIsSet("w") || flagIsSet("p")) && !(flagIsSet("a") || flagIsSet("A") || flagIsSet("C") || flagIsSet("F") || flagIsSet("S"))) || (!flagIsSet("D") && (flagIsSet("w") || flagIsSet("p")) && !(flagIsSet("a") || flagIsSet("A") || flagIsSet("C") || flagIsSet("F") || flagIsSet("S"))) || (!flagIsSet("D") && !(flagIsSet("w") || flagIsSet("p")) && (flagIsSet("a") || flagIsSet("A") || flagIsSet("C") || flagIsSet("F") || flagIsSet("S")))
+//@ witness[C14v] isNil(result1) && flagIsSet("D") ==> ruleFlagSet.Type == rule.DeleteAllRuleType
+//@ witness[C14v] isNil(result1) && (flagIsSet("w") || flagIsSet("p")) ==> ruleFlagSet.Type == rule.FileWatchRuleType
+//@ witness[C14v] isNil(result1) && !flagIsSet("p") ==> len(ruleFlagSet.Permissions) == 0
+//@ witness[C14v] isNil(result1) && !flagIsSet("k") ==> len(ruleFlagSet.Key) == 0
+//@ witness[C14v] isNil(result1) && !flagIsSet("F") && !flagIsSet("C") ==> len(ruleFlagSet.Filters) == 0
